@@ -101,7 +101,7 @@ prop("C11",
 prop("C14",
      ["C14_exclusive", "C14_try_succeeds_when_free", "C14_try_fails_when_held", "C14_waits_for_holder", "C14_reporting",
       "C14_no_values_without_guard_ops", "C14_empty_when_idle", "C14_witness"],
-     ["C01.", "C04.", "C12.", "C13.", "C14."],
+     ["C01.", "C04.", "C12.", "C13.", "C14.", "C05."],
      [fam("pool","P",5000), fam("fine-pool","P",2000,"monitor")],
      [fam("pool","P",150000), fam("fine-pool","P",60000,"monitor"), fam("scale","P",8,"monitor")])
 prop("C15",
